@@ -86,3 +86,89 @@ def etype(e):
 
 def is_lvalue(e):
     return e[0] in ('var', 'elem', 'fld')
+
+
+# ----------------------------------------------------------------------------------------------------------------------
+# Operator precedence of the source language (high -> low): ^, unary minus, * /, \, MOD, + -, relational, NOT, AND, OR,
+# XOR, EQV, IMP; binary operators associate to the left.  The generator parenthesises every nested operand; strip_parens
+# removes, with probability p, the parentheses that this table makes redundant, so that the rendered text exercises the
+# compiler's own precedence and associativity while the IR tree (what RefQB evaluates) stays the same.
+PREC = {'^': 1, '*': 3, '/': 3, '\\': 4, 'MOD': 5, '+': 6, '-': 6, '=': 7, '<>': 7, '<': 7, '>': 7, '<=': 7, '>=': 7,
+        'AND': 9, 'OR': 10, 'XOR': 11, 'EQV': 12, 'IMP': 13}
+_EXPR_TAGS = {'lit', 'var', 'elem', 'fld', 'bin', 'un', 'par', 'bcall', 'ucall', 'arr'}
+
+
+def _droppable_left(c, op):
+    if op == '^':
+        return False
+    if c[0] == 'bin':
+        return PREC[c[1]] <= PREC[op]
+    if c[0] == 'un':
+        if c[1] == '-':
+            return PREC[op] >= 3
+        if c[1] == 'NOT':
+            return PREC[op] >= 9
+    return c[0] in ('lit', 'var', 'elem', 'fld', 'bcall', 'ucall')
+
+
+def _droppable_right(c, op):
+    if op == '^':
+        return False
+    if c[0] == 'bin':
+        return PREC[c[1]] < PREC[op]
+    if c[0] == 'un':
+        return c[1] == 'NOT' and PREC[op] >= 9
+    return c[0] in ('lit', 'var', 'elem', 'fld', 'bcall', 'ucall')
+
+
+def strip_parens_expr(e, r, p, counter=None):
+    k = e[0]
+    if k == 'bin':
+        op = e[1]
+        a = strip_parens_expr(e[2], r, p, counter)
+        b = strip_parens_expr(e[3], r, p, counter)
+        if a[0] == 'par' and _droppable_left(a[1], op) and r.random() < p:
+            a = a[1]
+            if counter is not None:
+                counter[0] += 1
+        if b[0] == 'par' and _droppable_right(b[1], op) and r.random() < p:
+            b = b[1]
+            if counter is not None:
+                counter[0] += 1
+        return ('bin', op, a, b)
+    if k == 'un':
+        a = strip_parens_expr(e[2], r, p, counter)
+        if e[1] == 'NOT' and a[0] == 'par' and a[1][0] == 'bin' and PREC[a[1][1]] <= 7 and r.random() < p:
+            a = a[1]
+            if counter is not None:
+                counter[0] += 1
+        return ('un', e[1], a)
+    if k == 'par':
+        return ('par', strip_parens_expr(e[1], r, p, counter))
+    if k == 'elem':
+        return ('elem', e[1], e[2], [strip_parens_expr(i, r, p, counter) for i in e[3]]) + tuple(e[4:])
+    if k == 'fld':
+        return ('fld', strip_parens_expr(e[1], r, p, counter)) + tuple(e[2:])
+    if k in ('bcall', 'ucall'):
+        return (k, e[1], [strip_parens_expr(a, r, p, counter) for a in e[2]]) + tuple(e[3:])
+    return e
+
+
+def strip_parens(obj, r, p, counter=None):
+    """Walk any IR container (statement lists, dicts of procedures); rebuild expression tuples, mutate lists in place."""
+    if isinstance(obj, tuple):
+        if obj and isinstance(obj[0], str) and obj[0] in _EXPR_TAGS and obj[0] in ('bin', 'un', 'par', 'elem', 'fld', 'bcall', 'ucall'):
+            try:
+                return strip_parens_expr(obj, r, p, counter)
+            except (KeyError, IndexError, TypeError):
+                return obj
+        return tuple(strip_parens(x, r, p, counter) for x in obj)
+    if isinstance(obj, list):
+        for i, x in enumerate(obj):
+            obj[i] = strip_parens(x, r, p, counter)
+        return obj
+    if isinstance(obj, dict):
+        for k_ in list(obj):
+            obj[k_] = strip_parens(obj[k_], r, p, counter)
+        return obj
+    return obj
